@@ -31,10 +31,15 @@ struct Rig {
     net: Net<B>,
     raw: Vec<Option<RawCtl>>,
     tag: u64,
+    /// `StoreInserts::FilterBoth`: the behaviour does not store inbound records itself but hands them to the
+    /// application; the rig plays an application that accepts everything, following the documented procedure
+    /// (`store_mut().put(record)` / `store_mut().add_provider(record)` with the record carried by the event)
+    filter_both: bool,
+    pub filtered_records: u64,
 }
 
 impl Rig {
-    fn new(rng: &mut Rng, record_ttl: Option<Duration>, provider_ttl: Option<Duration>, n_raw: usize) -> Rig {
+    fn new(rng: &mut Rng, record_ttl: Option<Duration>, provider_ttl: Option<Duration>, n_raw: usize, filter_both: bool) -> Rig {
         let chunking = rng.chance(1, 4);
         let mut net: Net<B> = Net::new(rng.next_u64(), chunking);
         net.add_node(
@@ -42,6 +47,9 @@ impl Rig {
             |k, _| {
                 let id = k.public().to_peer_id();
                 let mut cfg = kad::Config::new(StreamProtocol::new(KAD));
+                if filter_both {
+                    cfg.set_record_filtering(kad::StoreInserts::FilterBoth);
+                }
                 cfg.set_record_ttl(record_ttl).set_provider_record_ttl(provider_ttl).set_publication_interval(None).set_replication_interval(None).set_provider_publication_interval(None).set_periodic_bootstrap_interval(None);
                 let mut b = kad::Behaviour::with_config(id, kad::store::MemoryStore::new(id), cfg);
                 b.set_mode(Some(kad::Mode::Server));
@@ -65,7 +73,7 @@ impl Rig {
             net.swarm(i).listen_on(mem(100 + i as u64)).unwrap();
             raw.push(ctl);
         }
-        Rig { net, raw, tag: 1 }
+        Rig { net, raw, tag: 1, filter_both, filtered_records: 0 }
     }
     fn kad(&mut self) -> &mut kad::Behaviour<kad::store::MemoryStore> {
         match self.net.swarm(0).behaviour_mut() {
@@ -74,8 +82,31 @@ impl Rig {
         }
     }
     fn run(&mut self) -> bool {
-        let mut sink = |_: &mut Net<B>, _: usize, _: SwarmEvent<Ev>| {};
-        self.net.run(400_000, &mut sink)
+        let mut handed: Vec<kad::InboundRequest> = vec![];
+        let mut sink = |_: &mut Net<B>, i: usize, ev: SwarmEvent<Ev>| {
+            if i == 0
+                && let SwarmEvent::Behaviour(Either::Left(kad::Event::InboundRequest { request })) = ev
+            {
+                handed.push(request);
+            }
+        };
+        let ok = self.net.run(400_000, &mut sink);
+        if self.filter_both {
+            for r in handed {
+                match r {
+                    kad::InboundRequest::PutRecord { record: Some(rec), .. } => {
+                        self.filtered_records += 1;
+                        let _ = self.kad().store_mut().put(rec);
+                    }
+                    kad::InboundRequest::AddProvider { record: Some(rec) } => {
+                        self.filtered_records += 1;
+                        let _ = self.kad().store_mut().add_provider(rec);
+                    }
+                    _ => {}
+                }
+            }
+        }
+        ok
     }
     fn connect_all(&mut self) -> bool {
         for i in 1..self.raw.len() {
@@ -135,7 +166,8 @@ pub fn run_c43(args: &Args) -> i32 {
     let cases = args.tier.pick(500u64, 40_000);
     vmon::par_cases_timed(&check, cases, args.threads, args.tier.pick(35.0, 400.0), |case_idx, rng: &mut Rng| {
         let n_raw = 2 + rng.usize(2);
-        let mut rig = Rig::new(rng, None, Some(Duration::from_secs(3600)), n_raw);
+        let filter_both = rng.chance(1, 3);
+        let mut rig = Rig::new(rng, None, Some(Duration::from_secs(3600)), n_raw, filter_both);
         if !rig.connect_all() {
             check.inconclusive("setup not quiescent");
             return;
@@ -150,6 +182,9 @@ pub fn run_c43(args: &Args) -> i32 {
         let mut sig = Sig::new();
         let (mut legit, mut illegit) = (0u64, 0u64);
         let mut history: Vec<String> = vec![];
+        if filter_both {
+            history.push("node runs StoreInserts::FilterBoth; the application stores every record handed to it".into());
+        }
         for _ in 0..rng.range(4, 14) {
             let from = 1 + rng.usize(n_raw);
             let sender = rig.net.peer(from);
@@ -240,6 +275,7 @@ pub fn run_c43(args: &Args) -> i32 {
         check.case(sig.0, legit > 0 && illegit > 0);
         check.count("legitimate_requests", legit);
         check.count("illegitimate_requests", illegit);
+        check.count("histories_with_filterboth", filter_both as u64);
         check.distinct("distinct_interleavings", rig.net.trace.0);
         if check.want_sample() && legit > 1 && illegit > 1 {
             check.sample(json!({"history": history}));
@@ -250,12 +286,13 @@ pub fn run_c43(args: &Args) -> i32 {
 
 /// C42 first half (records received over the wire), feeding the caller's `Check`
 pub fn c42_part_a(check: &Check, args: &Args) {
-    let cases = if args.extra.contains_key("budget") { 30 } else { args.tier.pick(600u64, 40_000) };
+    let cases = if args.extra.contains_key("budget") { 60 } else { args.tier.pick(600u64, 40_000) };
     vmon::par_cases_timed(check, cases, args.threads, args.tier.pick(35.0, 400.0), |case_idx, rng: &mut Rng| {
         let cfg_ttl = [None, Some(3u64), Some(100)][(case_idx % 3) as usize];
         let ttl = [0u32, 1, 5, 50, 1000][((case_idx / 3) % 5) as usize];
         let with_publisher = (case_idx / 15) % 2 == 1;
-        let mut rig = Rig::new(rng, cfg_ttl.map(Duration::from_secs), None, 1);
+        let filter_both = (case_idx / 30) % 2 == 1;
+        let mut rig = Rig::new(rng, cfg_ttl.map(Duration::from_secs), None, 1, filter_both);
         if !rig.connect_all() {
             check.inconclusive("setup not quiescent");
             return;
@@ -269,7 +306,7 @@ pub fn c42_part_a(check: &Check, args: &Args) {
             return;
         }
         let stored = rig.kad().store_mut().get(&kad::RecordKey::new(&key)).map(|r| r.into_owned());
-        let wit = json!({"case": case_idx, "record_ttl_s": cfg_ttl, "received_ttl_s": ttl, "publisher": with_publisher,
+        let wit = json!({"case": case_idx, "record_ttl_s": cfg_ttl, "received_ttl_s": ttl, "publisher": with_publisher, "store_inserts": if filter_both { "FilterBoth (application stores the record carried by the event)" } else { "Unfiltered" },
             "stored_expires_in_s": stored.as_ref().map(|r| r.expires.map(|e| e.saturating_duration_since(t_after).as_secs_f64()))});
         let Some(rec) = stored else {
             // a record with ttl elapsed may legitimately not be stored; otherwise it is a setup problem
@@ -296,8 +333,9 @@ pub fn c42_part_a(check: &Check, args: &Args) {
                 }
             }
         }
-        check.case(Sig::new().u64(case_idx % 30).u64(rig.net.trace.0).0, true);
-        check.distinct("config_ttl_publisher_cells", case_idx % 30);
+        check.case(Sig::new().u64(case_idx % 60).u64(rig.net.trace.0).0, true);
+        check.distinct("config_ttl_publisher_filter_cells", case_idx % 60);
+        check.count("part_a_records_handed_to_application_filterboth", rig.filtered_records);
         check.count("part_a_records_received_and_stored", 1);
         if check.want_sample() && case_idx % 7 == 0 {
             check.sample(wit);
